@@ -33,6 +33,41 @@ def Lang : Pat → List Sym → Prop
   | .alt p q, w => Lang p w ∨ Lang q w
   | .rep p mn mx, w => ∃ n, mn ≤ n ∧ (∀ m, mx = some m → n ≤ m) ∧ Pow (Lang p) n w
 
+/-! ### the language of the pattern tree as the user writes it (`types.PatternNode`) -/
+
+/-- concatenation of languages, in order -/
+def ConcatL : List (List Sym → Prop) → List Sym → Prop
+  | [], w => w = []
+  | L :: Ls, w => ∃ u v, w = u ++ v ∧ L u ∧ ConcatL Ls v
+
+/-- some language of the list -/
+def AnyL : List (List Sym → Prop) → List Sym → Prop
+  | [], _ => False
+  | L :: Ls, w => L w ∨ AnyL Ls w
+
+/-- the first language of the list (ε if there is none) -/
+def HeadL : List (List Sym → Prop) → List Sym → Prop
+  | [], w => w = []
+  | L :: _, w => L w
+
+mutual
+/-- `A B` sequence, `A | B` alternation, `( … )` group, `A{n,m}` / `*` / `+` / `?` repetition
+(`max < 0`: unbounded), `PERMUTE(A, B, …)`: the operands in some order of their positions.
+An exclusion `{- … -}` has no words (the compiler rejects it). -/
+def LangN : PNode → List Sym → Prop
+  | .lit a, w => w = [a]
+  | .seq cs, w => ConcatL (LangNs cs) w
+  | .alt cs, w => (cs = [] ∧ w = []) ∨ AnyL (LangNs cs) w
+  | .group cs, w => HeadL (LangNs cs) w
+  | .rep c mn mx _, w => ∃ n : Nat, mn ≤ (n : Int) ∧ (0 ≤ mx → (n : Int) ≤ mx) ∧ Pow (LangN c) n w
+  | .permute cs, w => ∃ σ : List Nat, σ.Perm (List.range cs.length) ∧
+      ConcatL (σ.map fun i => (LangNs cs).getD i (fun w => w = [])) w
+  | .exclusion, _ => False
+def LangNs : List PNode → List (List Sym → Prop)
+  | [] => []
+  | c :: cs => LangN c :: LangNs cs
+end
+
 section
 variable {ρ : Type}
 
